@@ -2053,8 +2053,8 @@ func (te *TemplateEngine) replaceVariablesInXMLPart(xmlData []byte, data *Templa
 		}
 		varName := matches[1]
 		if value, exists := data.Variables[varName]; exists {
-			// 对XML内容进行转义
-			return te.escapeXMLContent(te.interfaceToString(value))
+			// 对XML内容进行转义；值里的 "{{...}}" 仍然是值，不被后面的步骤当作占位符或条件语句（见 guardTemplateValue）
+			return guardTemplateValue(te.escapeXMLContent(te.interfaceToString(value)))
 		}
 		return match // 保持原样
 	})
@@ -2069,7 +2069,7 @@ func (te *TemplateEngine) replaceVariablesInXMLPart(xmlData []byte, data *Templa
 		placeholder := xmlTagPattern.ReplaceAllString(match, "")
 		varName := strings.TrimSuffix(strings.TrimPrefix(placeholder, "{{"), "}}")
 		if value, exists := data.Variables[varName]; exists {
-			return te.escapeXMLContent(te.interfaceToString(value)) + strings.Join(tags, "")
+			return guardTemplateValue(te.escapeXMLContent(te.interfaceToString(value))) + strings.Join(tags, "")
 		}
 		return match // 保持原样
 	})
@@ -2077,7 +2077,8 @@ func (te *TemplateEngine) replaceVariablesInXMLPart(xmlData []byte, data *Templa
 	// 替换条件语句
 	content = te.renderConditionals(content, data.Conditions)
 
-	return []byte(content), nil
+	// 所有步骤完成后去掉值上的保护标记
+	return []byte(unguardTemplateText(content)), nil
 }
 
 // escapeXMLContent 转义XML特殊字符
